@@ -21,6 +21,7 @@ const (
 	RelSame     = "same"     // outFile == inFile (identical string)
 	RelNew      = "new"      // outFile does not exist
 	RelExisting = "existing" // outFile exists (old content, non-default mode)
+	RelExisting0 = "existing0" // outFile exists and is empty (the mktemp/touch pattern)
 	// C03 only: aliases of the input
 	RelDotSlash = "dotslash" // out = dir/./in.pdf
 	RelRelAbs   = "relabs"   // in absolute, out relative to cwd (cwd = in dir)
@@ -77,10 +78,11 @@ func register(o *Op) {
 		panic("duplicate op " + o.Name)
 	}
 	if len(o.Rels) == 0 && !o.OutDirOp {
-		o.Rels = []string{RelInPlace, RelSame, RelNew, RelExisting}
+		o.Rels = []string{RelInPlace, RelSame, RelNew, RelExisting, RelExisting0}
 	}
 	if o.OutDirOp && len(o.Rels) == 0 {
-		o.Rels = []string{"emptydir", "populated"}
+		// populated-ro: the pre-existing files of the output directory are read-only (0444)
+		o.Rels = []string{"emptydir", "populated", "populated-ro"}
 	}
 	registry[o.Name] = o
 }
@@ -165,6 +167,11 @@ func Setup(o *Op, rel string, root string, outMode os.FileMode) (*Env, error) {
 		e.FontDir = filepath.Join(root, "fonts")
 		e.CertDir = filepath.Join(root, "certs")
 		e.Dest = ""
+		if rel == RelSymlinkDir {
+			// the font directory path is a symbolic link to the real directory
+			os.Mkdir(filepath.Join(root, "realfonts"), 0755)
+			os.Symlink(filepath.Join(root, "realfonts"), e.FontDir)
+		}
 		os.Mkdir(e.FontDir, 0755)
 		os.Mkdir(e.CertDir, 0755)
 		os.WriteFile(filepath.Join(e.FontDir, "notes.txt"), []byte("not a font, must not be touched"), 0644)
@@ -180,9 +187,6 @@ func Setup(o *Op, rel string, root string, outMode os.FileMode) (*Env, error) {
 		}
 	}
 	if o.OutDirOp {
-		if rel == "populated" {
-			// files with names the op is likely to produce are created by the engine after a recording run
-		}
 		return e, nil
 	}
 	ext := ".pdf"
@@ -204,6 +208,14 @@ func Setup(o *Op, rel string, root string, outMode os.FileMode) (*Env, error) {
 		e.Dest = e.Out
 		e.OldOut = OldOutputContent
 		if err := os.WriteFile(e.Out, e.OldOut, outMode); err != nil {
+			return nil, err
+		}
+		os.Chmod(e.Out, outMode)
+	case RelExisting0:
+		e.Out = filepath.Join(e.OutDir, "out"+ext)
+		e.Dest = e.Out
+		e.OldOut = []byte{}
+		if err := os.WriteFile(e.Out, nil, outMode); err != nil {
 			return nil, err
 		}
 		os.Chmod(e.Out, outMode)
